@@ -220,7 +220,7 @@ def rule_counter_reachability(ctx, rid, file_re, reason=""):
             return memo[m]
         memo[m] = set()
         F = by_m.get(m)
-        if F is None or depth > 5:
+        if F is None or depth > 12:
             return set()
         res = set(ops.get(m, ()))
         for _, _, e in F.all_elements():
@@ -255,7 +255,7 @@ def rule_counter_reachability(ctx, rid, file_re, reason=""):
             return memo2[key]
         memo2[key] = set()
         F = by_m.get(m)
-        if F is None or depth > 5:
+        if F is None or depth > 12:
             return set()
         res = set(ops.get(m, ()))
         if any(e.get("k") == "call" and re.search(r"item_counter::reset$", e.get("q") or "") for _, _, e in F.all_elements()):
